@@ -11,7 +11,7 @@ import (
 )
 
 func (p *sshFxpExtendedPacketStatVFS) respond(svr *Server) responsePacket {
-	retPkt, err := getStatVFSForPath(p.Path)
+	retPkt, err := getStatVFSForPath(svr.toLocalPath(p.Path))
 	if err != nil {
 		return statusFromError(p.ID, err)
 	}
